@@ -327,10 +327,10 @@ class PostgresConnection(DBAPI):
 
     @classmethod
     def _queryAddLimitOffset(cls, query, start, end):
+        if end is None:
+            return "%s OFFSET %i" % (query, start)
         if not start:
             return "%s LIMIT %i" % (query, end)
-        if not end:
-            return "%s OFFSET %i" % (query, start)
         return "%s LIMIT %i OFFSET %i" % (query, end - start, start)
 
     def createColumn(self, soClass, col):
